@@ -63,7 +63,21 @@ pub trait Bitmap {}
 pub struct MmapRegion<B> { pub sz: usize, pub _b: PhantomData<B> }
 impl<B> MmapRegion<B> {
     pub fn size(&self) -> (r: usize) ensures r == self.sz { self.sz }
+    // creation of the mapping itself is K-region's subject (mmap model); here: a mapping of `size` bytes or an error
+    #[verifier::external_body]
+    pub fn new(size: usize) -> (r: core::result::Result<MmapRegion<B>, MmapRegionError>)
+        ensures r matches Ok(m) ==> m.sz == size
+    { unimplemented!() }
+    #[verifier::external_body]
+    pub fn from_file(file_offset: FileOffset, size: usize) -> (r: core::result::Result<MmapRegion<B>, MmapRegionError>)
+        ensures r matches Ok(m) ==> m.sz == size
+    { unimplemented!() }
 }
+impl FileOffset {
+    #[verifier::external_body]
+    pub fn clone(&self) -> (r: FileOffset) ensures r == *self { unimplemented!() }
+}
+pub trait NewBitmap: Bitmap {}
 
 //@item src/mmap/mod.rs :: - :: pub struct GuestRegionMmap<B = \(\)> :: pubfields
 //@enditem
@@ -87,6 +101,20 @@ impl<B: Bitmap> GuestRegionMmap<B> {
 //@canary off_by_one :: checked_add\(mapping\.size\(\) as u64\) => checked_add((mapping.size() as u64).saturating_sub(1))
 //@endfn
 
+}
+impl<B: NewBitmap> GuestRegionMmap<B> {
+//@fn src/mmap/mod.rs :: impl<B: NewBitmap> GuestRegionMmap<B> :: from_range :: tags=C10,C15,C07
+//@sub result::Result<Self, Error> => core::result::Result<Self, Error>
+//@sub \.map_err\(Error::MmapRegion\) => .map_err(|e: MmapRegionError| -> (q: Error) ensures q == Error::MmapRegion(e) { Error::MmapRegion(e) })
+//@spec
+    ensures
+        // whatever way a region is created, one whose end would exceed the address space is refused
+        r matches Ok(reg) ==> reg.guest_base == addr && reg.mapping.sz == size && addr.0 + size <= u64::MAX, // [C10,C15]
+        addr.0 + size > u64::MAX ==> r is Err, // [C10,C15]
+//@end
+//@endfn
+}
+impl<B: Bitmap> GuestRegionMmap<B> {
 //@fn src/mmap/mod.rs :: impl<B: Bitmap> GuestMemoryRegion for GuestRegionMmap<B> :: len :: tags=C02
 //@spec
     ensures r == self.s_len(),
